@@ -271,6 +271,45 @@ def readonly_rule(prog, chk):
         else:
             chk.fail("R9.1u", fn, "unset-without-readonly-test", "%s calls ShellVariableMap::unset (%s) with no dominating readonly test" % (fn, b.loc(t.line)))
 
+    # every scope visited by unset goes through the readonly-checking remover
+    chk.rule("R9.1v", "ShellEnvironment::unset leaves its scope walk only after try_unset_in_map was applied to the scope at hand (or when the "
+                      "scopes are exhausted): no early return that skips the readonly test and the removal of a binding")
+    ENV_UNSET = "brush_core::env::ShellEnvironment::unset"
+    ub = prog.impl_body(ENV_UNSET)
+    if chk.anchor("R9.1v", ENV_UNSET, ub):
+        uc = cfg_of(ub)
+        removers = [bb for bb, t in ub.calls() if (t.best_callee() or "").endswith("ShellEnvironment::try_unset_in_map")]
+        loops = uc.source_loops()
+        heads = [h for h, blks in loops.items() if any(r in blks for r in removers)]
+        if not removers or not heads:
+            chk.fail("R9.1v", ENV_UNSET, "scope-walk-shape", "unset no longer walks the scopes through try_unset_in_map in a loop (%d calls, %d loops)" % (len(removers), len(heads)))
+        else:
+            h = heads[0]
+            blks = loops[h]
+            # the iterator-exhausted edge: the None arm of the switch on the result of Iterator::next
+            exhausted = []
+            ud = defs_of(ub)
+            for bl in blks:
+                t = ub.blocks[bl].term
+                if t.kind == "switch":
+                    for o in origins(ub, ud, t.discr, through_ops=True):
+                        if o.kind == 'call' and (o.node.best_callee() or o.node.callee or "").endswith("Iterator>::next"):
+                            exhausted += [tg for v, tg in t.targets if v == 0]
+                        if o.kind == 'op' and o.node.kind == 'discr':
+                            for oo in (origins(ub, ud, o.node.place, through_ops=True) if o.node.place is not None else []):
+                                if oo.kind == 'call' and (oo.node.best_callee() or oo.node.callee or "").endswith("Iterator>::next"):
+                                    exhausted += [tg for v, tg in t.targets if v == 0]
+            rets = uc.return_blocks()
+            p = uc.path(h, rets, avoid=set(removers) | set(exhausted) | set(uc.error_exit_blocks()), after=False)
+            if not exhausted:
+                chk.fail("R9.1v", ENV_UNSET, "scope-walk-exit-unknown", "could not identify the scopes-exhausted edge of the walk")
+            elif p is None:
+                chk.ok("R9.1v", "unset-walk-complete", "every return from inside the walk passes try_unset_in_map for the scope at hand", function=ENV_UNSET)
+            else:
+                chk.fail("R9.1v", ENV_UNSET, "unset-returns-before-removal",
+                         "unset can return from inside its scope walk without applying try_unset_in_map to the scope at hand (path %s): a binding is left in place "
+                         "(and its readonly attribute is not consulted) — e.g. a value-less `local v` in a caller survives `unset v` in the callee and keeps shadowing the global" % (p[:8],))
+
     # whole-variable replacement
     chk.rule("R9.1c", "ShellVariableMap::set (whole-variable replacement / shadowing) is only reached after a readonly test of the "
                       "visible variable of that name")
